@@ -213,7 +213,8 @@ def _state_writer_codes():
     pkg_dir = os.path.realpath(os.path.join(REPO, "adcgen"))
     for c in allc:
         rel = os.path.relpath(os.path.realpath(c.co_filename), pkg_dir)
-        if (rel, c.co_qualname) in wanted:
+        if (rel, c.co_qualname) in wanted or rel in ("indices.py", "misc.py"):
+            # every code object of the registry module and of the caching decorators
             out.append(c)
         elif rel == "intermediates.py" and c.co_qualname.endswith("._build_expanded_itmd"):
             out.append(c)
@@ -245,6 +246,10 @@ class Injector:
         self._pkg = os.path.realpath(os.path.join(REPO, "adcgen"))
         self.mon.use_tool_id(self.TOOL, "verif-sim")
         self.mon.register_callback(self.TOOL, self.mon.events.LINE, self._cb)
+        # generator expressions live on one source line: every bytecode instruction of such a
+        # code object is an eligible cut point, so that an interruption can land between two
+        # items a generator feeds into list.extend / dict.update / sum ...
+        self.mon.register_callback(self.TOOL, self.mon.events.INSTRUCTION, self._cb_instr)
 
     def codes(self, mode):
         if mode not in self._codes:
@@ -265,13 +270,21 @@ class Injector:
         if self.k is not None and self.n == self.k:
             key = (os.path.relpath(os.path.realpath(code.co_filename), self._pkg), line)
             self.active = False
-            self.fired = {"file": key[0], "line": line, "func": code.co_qualname,
+            self.fired = {"file": key[0], "line": line if line >= 0 else
+                          f"{code.co_firstlineno}+i{-line - 1}", "func": code.co_qualname,
                           "event": self.n}
             raise self.exc(f"injected at {key[0]}:{line}")
 
+    def _cb_instr(self, code, offset):
+        return self._cb(code, -offset - 1)
+
     def _arm(self, mode, on):
-        ev = self.mon.events.LINE if on else 0
         for c in self.codes(mode):
+            ev = 0
+            if on:
+                ev = self.mon.events.LINE
+                if c.co_name == "<genexpr>":
+                    ev |= self.mon.events.INSTRUCTION
             self.mon.set_local_events(self.TOOL, c, ev)
 
     def count(self, mode, fn):
